@@ -85,6 +85,18 @@ Proof.
   - cbn [fst st ca]. split; cbn [st ca]; [apply offline_get_desc_frame|reflexivity].
 Qed.
 
+(* a {get desc} of a session that is not attached shows no numbers *)
+Definition not_reader_desc_c01i (fr : frame) : bool := match fr with MetaDesc _ _ _ _ _ _ r => negb r | _ => true end.
+Lemma step_getdesc_offline f x sid :
+  is_attached_c01i x sid = false ->
+  forall e, In e (snd (step dr nr sm f x (OGetDesc sid))) -> not_reader_desc_c01i (snd e) = true.
+Proof.
+  destruct x as [s cx n]. unfold is_attached_c01i, step. cbn [st ca]. intros NA.
+  assert (forall e, In e (o_out (offline_get_desc f s sid (sess_uid sm sid))) -> not_reader_desc_c01i (snd e) = true) as K.
+  { intros e. unfold offline_get_desc. repeat break_match; cbn [o_out]; intros [<-|[]]; reflexivity. }
+  destruct cx as [c|]; [rewrite NA|]; cbn [negb snd]; exact K.
+Qed.
+
 Lemma istep_base f x o :
   beq_c01i (ibase (fst (istep dr nr sm f x o))) (fst (step dr nr sm f (ibase x) (base_op_c01i o))).
 Proof.
@@ -136,8 +148,14 @@ Proof.
   destruct o; unfold istep.
   - destruct (step dr nr sm f (ibase x) o) as [b1 o1]. cbn [snd]. intros H. exfalso. exact (NL _ H).
   - destruct (step dr nr sm f (ibase x) (OGetDesc sid0)) as [b1 o1] eqn:ES. cbn [fst snd ibase].
-    destruct (ca (ibase x)) as [c|] eqn:EC; [|intros H; exfalso; exact (NL _ H)].
-    destruct (attached c sid0) eqn:AT; [|intros H; exfalso; exact (NL _ H)].
+    pose proof (step_getdesc_offline f (ibase x) sid0) as OFF. rewrite ES in OFF. cbn [snd] in OFF.
+    assert (forall sp, ~ In (sid, FDesc w g seq rd rc dl true cr pb) (lift_offline_c01i sp o1) \/ is_attached_c01i (ibase x) sid0 = true) as NO.
+    { intros sp. destruct (is_attached_c01i (ibase x) sid0) eqn:IA; [now right|left].
+      intros H. unfold lift_offline_c01i in H. apply in_map_iff in H. destruct H as (e & E & Hin).
+      specialize (OFF eq_refl e Hin). destruct (snd e); try discriminate. inv E. cbn in OFF. discriminate. }
+    unfold is_attached_c01i in NO.
+    destruct (ca (ibase x)) as [c|] eqn:EC; [|intros H; exfalso; destruct (NO (s_pub x)) as [K|K]; [exact (K H)|discriminate]].
+    destruct (attached c sid0) eqn:AT; [|intros H; exfalso; destruct (NO (s_pub x)) as [K|K]; [exact (K H)|discriminate]].
     intros H. exists c. split.
     + pose proof (step_getdesc_noop f (ibase x) sid0) as [_ E2]. rewrite ES in E2. cbn [fst] in E2. congruence.
     + eapply get_desc_ims_current; [exact H|reflexivity].
